@@ -82,7 +82,7 @@ CLAIMED = {
             'the truncation offsets of one file per synthetic set are enumerated (stratified sample in quick, all in thorough) incl. sfcf text files and '
             'json.gz / xml.gz / csv.gz archives; the Lean reader run on the same truncated bytes must agree on accept / reject and record count.',
             'Lean kernel; standard axioms; rwms 2.0 nested arrays and text layouts are covered by enumeration only; zlib / rapidjson / lxml / pandas rejection by contract.', '5 C18'),
-    'C11': ('Lean 4 theorems on the replica-table encode/decode (round trip for zero-mean chains, samples always restored) and on the dictionary placeholder mechanism (import(export(d)) = d for every nested dictionary) + model/impl correspondence of _ol_from_dict / _od_from_list_and_dict + schema regenerated from examples/json_schema.json and validated by a Lean validator cross-checked with jsonschema + deep round-trip comparison over all transports',
+    'C11': ('Lean 4 theorems on the numeric part of a document (reader(writer(structure)) = structure for every writable Obs / List / Array structure), the replica table, and the dictionary placeholder mechanism (import(export(d)) = d for every nested dictionary) + model/impl correspondence of the document writer / reader and of _ol_from_dict / _od_from_list_and_dict + schema regenerated from examples/json_schema.json and validated by a Lean validator cross-checked with jsonschema + deep round-trip comparison over all transports',
             'Proof: the numerical core of the format - rows [config, delta_j + (r_j - value_j)] and the column-average decoding - is proved to restore '
             'configuration numbers, every fluctuation and every replica mean for any number of observables and configurations (zero-mean chains), and the '
             'per-configuration samples unconditionally. Every structure kind is written and re-read through strings, files (gz on/off, indent 0/1), dict files, '
